@@ -30,6 +30,7 @@ G_N = '%import .mid (x, B)\nstart: x+\nother: B+\n%ignore " "\n%ignore "("\n%ign
 MID = '%import .leaf (A)\nx: A [B] "!"\nB: "b"\n'
 LEAF = ['A: "a"\n', 'A: "a" | "A"\n', 'A: /a+/\n', 'A: "A"\n']                                                    # versions 0 and 3 have the same size
 G_K2 = 'start: (X | Y | KW | ID)+\nother: ID+\nX.2: /a/\nY: /a|b/\nKW.-1: "bb"\nID: /b+/\n%ignore " "\n%ignore "!"\n%ignore "("\n%ignore ")"\n%ignore "c"\n'
+PKG_SUB = F.SIMPKG_DIR + '/grammars/sub.lark'
 SUB = ['A: "a"\nB: "b"\n', 'A: "a" | "A"\nB: "bb"\n', 'A: /a+/\nB: "b"\n', 'A: "a"\nB: "c"\n']       # versions 0 and 3 have the same size
 
 
@@ -60,6 +61,8 @@ POOL = {
     'P1': dict(g=G_IL, o={'import_paths': [V + 'p1']}, imports=[V + 'p1/sub.lark']),          # same text, the import_paths option differs
     'P2': dict(g=G_IL, o={'import_paths': [V + 'p2']}, imports=[V + 'p2/sub.lark']),
     'P21': dict(g=G_IL, o={'import_paths': [V + 'p2', V + 'p1']}, imports=[V + 'p2/sub.lark']),
+    'G1': dict(g=G_IL, o={'import_paths': ['@simpkg']}, imports=[PKG_SUB]),                  # the library is a Python package: FromPackageLoader, used_files holds a PackageResource that can change
+    'G1P': dict(g=G_IL, o={'import_paths': ['@simpkg', V + 'p1']}, imports=[PKG_SUB]),        # same parser: the package comes first in the search order
     'A-regex': dict(g=G_A, o={'regex': True}),
     'N1': dict(g=G_N, o={}, open=V + 'p1/n.lark', imports=[V + 'p1/leaf.lark']),           # staleness must be detected two imports deep
     'A-cb': dict(g=G_A, o={}, user={'lexer_callbacks': 'upper_c'}),                        # callable options: outside the key, re-applied at load
@@ -80,6 +83,7 @@ POOL = {
 }
 OPTION_DEFAULTS = {'maybe_placeholders': True, 'keep_all_tokens': False, 'propagate_positions': False, 'lexer': 'contextual', 'start': ['start'],
                    'g_regex_flags': 0, 'use_bytes': False, 'strict': False, 'regex': False, 'priority': 'normal', 'import_paths': []}
+IMPORT_FILES = [V + 'p1/sub.lark', V + 'p2/sub.lark', V + 'p1/leaf.lark', PKG_SUB]
 QUICK_KEYS = [k for k in POOL if k != 'BIG']
 CONC_KEYS = [k for k in QUICK_KEYS if not POOL[k].get('cwd')]      # the simulated cwd is per process; concurrent procs share the facade
 TEXTS = ['a b c !', 'a !', 'a c !', '( a b ! )', 'a b', 'b b', 'A !', 'a bb !', 'a b cc ! a !', '', 'a ! ?', 'aa !', 'k001 a ! k119 !', 'k120 !']
@@ -94,7 +98,7 @@ class Env:
     """the mutable environment a lifetime runs in (besides the cache files)"""
 
     def __init__(self):
-        self.sub = {V + 'p1/sub.lark': 0, V + 'p2/sub.lark': 1, V + 'p1/leaf.lark': 0}
+        self.sub = {V + 'p1/sub.lark': 0, V + 'p2/sub.lark': 1, V + 'p1/leaf.lark': 0, PKG_SUB: 2}
         self.lark_version = '1.3.1'
         self.py = None
         self.keep_mtime = set()      # files whose next edit keeps the old modification time (cp -p, rsync -t, os.utime)
@@ -142,6 +146,7 @@ class C12(Check):
         self.refs = {}
         self.valid = {}
         self.reset_volatile = False
+        self.fresh_modules = False
         self.real_version = self.lark.__version__
         self.volatile = self._scan_volatile()
 
@@ -178,7 +183,7 @@ class C12(Check):
         nk = rng.choice([1, 2, 2, 3, 4])
         hk = [rng.choice(keys) for _ in range(nk)]
         if rng.random() < 0.3:
-            hk += rng.choice([['I1', 'I2'], ['O1', 'O2'], ['S1', 'S2'], ['O1', 'I1', 'S1'], ['P1', 'P2'], ['P2', 'P21', 'P1'], ['K', 'K-inv', 'K-basic'], ['N1', 'N1'], ['A', 'A-cb', 'A-tr'], ['K2', 'K2-none', 'K2-inv', 'K2-normal'],
+            hk += rng.choice([['I1', 'I2'], ['O1', 'O2'], ['S1', 'S2'], ['O1', 'I1', 'S1'], ['P1', 'P2'], ['P2', 'P21', 'P1'], ['G1', 'G1'], ['G1', 'G1P', 'P1'], ['K', 'K-inv', 'K-basic'], ['N1', 'N1'], ['A', 'A-cb', 'A-tr'], ['K2', 'K2-none', 'K2-inv', 'K2-normal'],
                               ['A', 'A-ph-explicit', 'A-noflags', 'A-start-list', 'A-noph']])
         paths = ['c1'] if rng.random() < 0.7 else ['c1', 'c2']
         if rng.random() < 0.15:
@@ -192,7 +197,7 @@ class C12(Check):
             if i > 0 and r < 0.35:
                 env.append({'kind': 'content', 'path': rng.choice(paths), 'fault': self._gen_content_fault(rng)})
             elif r < 0.45:
-                env.append({'kind': 'edit_import', 'file': rng.choice([V + 'p1/sub.lark', V + 'p2/sub.lark', V + 'p1/leaf.lark']), 'version': rng.choice([0, 1, 2, 3, 3, 0]),
+                env.append({'kind': 'edit_import', 'file': rng.choice(IMPORT_FILES), 'version': rng.choice([0, 1, 2, 3, 3, 0]),
                             'keep_mtime': rng.random() < 0.35})
             elif r < 0.53:
                 env.append({'kind': 'lark_version', 'v': rng.choice(LARK_VERSIONS)})
@@ -208,10 +213,11 @@ class C12(Check):
             faults, aft, load_exc = self._gen_life_faults(rng)
             mid = None
             if rng.random() < 0.06:
-                mid = {'file': rng.choice([V + 'p1/sub.lark', V + 'p2/sub.lark', V + 'p1/leaf.lark']), 'version': rng.randrange(4)}
+                mid = {'file': rng.choice(IMPORT_FILES), 'version': rng.randrange(4)}
             lives.append({'key': rng.choice(hk), 'path': rng.choice(paths), 'env': env, 'faults': faults, 'aftermath': aft, 'load_exc': load_exc, 'mid_edit': mid,
                           'bufsize': rng.choice([1, 7, 64, 512, 4096, 8192, 1 << 20])})
-        return {'mode': 'history', 'lives': lives, 'reset_volatile': rng.random() < 0.04}
+        # fresh_modules: every lifetime is a new interpreter as far as the simulated grammar package goes (not imported yet)
+        return {'mode': 'history', 'lives': lives, 'reset_volatile': rng.random() < 0.04, 'fresh_modules': rng.random() < 0.6}
 
     def _gen_concurrent(self, rng, hk, paths):
         a, b = rng.choice([k for k in hk if k in CONC_KEYS] or ['A']), rng.choice(CONC_KEYS)
@@ -267,6 +273,8 @@ class C12(Check):
         """only durable state survives a process: every module-level container of lark goes back to its import-time content.
         Rebuilding the grammar-of-grammars parser costs ~0.2 s, so this is done for the histories whose plan asks for it (a swarm
         knob: those histories are sequences of separate processes, the others are same-process histories), not for every lifetime."""
+        if self.fresh_modules:
+            F.forget_simpkg()
         if not (force or self.reset_volatile):
             return
         for name, obj, orig in self.volatile:
@@ -316,6 +324,9 @@ class C12(Check):
         k = POOL[keyname]
         g, kw = self._kwargs(keyname)
         kw.update(extra)
+        if '@simpkg' in (kw.get('import_paths') or ()):
+            from lark.load_grammar import FromPackageLoader
+            kw['import_paths'] = [FromPackageLoader(F.SIMPKG, ('grammars',)) if x == '@simpkg' else x for x in kw['import_paths']]
         kw.update(self._user_objects(k.get('user') or {}))
         if 'cache' in kw:
             kw['cache'] = self._cpath(kw['cache'])
@@ -398,6 +409,7 @@ class C12(Check):
         out = Outcome()
         gc.collect()
         self.reset_volatile = bool(plan.get('reset_volatile'))
+        self.fresh_modules = bool(plan.get('fresh_modules'))
         self.facade = F.Facade()
         uninstall = F.install(self.facade)
         try:
